@@ -1723,47 +1723,101 @@ func ruleDuplicateDefinitionsAlwaysReported(c *core.Ctx) {
 		if c.DeclPkg(d) != p || d.Body == nil || c.IsTestFile(d.Pos()) {
 			continue
 		}
-		ast.Inspect(d.Body, func(m ast.Node) bool {
-			is, ok := m.(*ast.IfStmt)
-			if !ok || is.Init == nil {
-				return true
-			}
-			as, ok := is.Init.(*ast.AssignStmt)
+		// the comma-ok lookup in a dsl.SymbolTable: `v, ok := T[k]`
+		lookup := func(st ast.Stmt) (*ast.IndexExpr, types.Object) {
+			as, ok := st.(*ast.AssignStmt)
 			if !ok || len(as.Lhs) != 2 || len(as.Rhs) != 1 {
-				return true
+				return nil, nil
 			}
 			ix, ok := ast.Unparen(as.Rhs[0]).(*ast.IndexExpr)
 			if !ok {
-				return true
+				return nil, nil
 			}
 			nt := core.NamedOf(derefType(info.TypeOf(ix.X)))
 			if nt == nil || nt.Obj().Name() != "SymbolTable" {
-				return true
+				return nil, nil
 			}
 			okID, isID := as.Lhs[1].(*ast.Ident)
-			cond, isCond := ast.Unparen(is.Cond).(*ast.Ident)
-			if !isID || !isCond || info.ObjectOf(okID) != info.ObjectOf(cond) {
-				return true
+			if !isID {
+				return nil, nil
 			}
-			// only the build of the table: the else branch (or what follows) stores under the same key
-			stores := false
-			ast.Inspect(d.Body, func(k ast.Node) bool {
+			return ix, info.ObjectOf(okID)
+		}
+		isOK := func(e ast.Expr, o types.Object) bool {
+			id, ok := ast.Unparen(e).(*ast.Ident)
+			return ok && info.ObjectOf(id) == o
+		}
+		isNotOK := func(e ast.Expr, o types.Object) bool {
+			ue, ok := ast.Unparen(e).(*ast.UnaryExpr)
+			return ok && ue.Op == token.NOT && isOK(ue.X, o)
+		}
+		storesUnder := func(node ast.Node, key ast.Expr) bool {
+			found := false
+			ast.Inspect(node, func(k ast.Node) bool {
 				if a2, ok := k.(*ast.AssignStmt); ok && a2.Tok == token.ASSIGN {
 					for _, l := range a2.Lhs {
-						// outside the exists-branch: an update of an existing entry (the rewriter's updateSymbolTable) is not a build
-						if i2, ok := l.(*ast.IndexExpr); ok && types.ExprString(i2.Index) == types.ExprString(ix.Index) && !(is.Body.Pos() <= a2.Pos() && a2.End() <= is.Body.End()) {
-							stores = true
+						if i2, ok := l.(*ast.IndexExpr); ok && types.ExprString(i2.Index) == types.ExprString(key) {
+							found = true
 						}
 					}
 				}
 				return true
 			})
-			if !stores {
-				return true
-			}
+			return found
+		}
+		judge := func(existsPath []ast.Stmt, at token.Pos) {
 			n++
-			c.Check(always(is.Body.List), rule, c.FuncName(d)+"/name already defined", is.Pos(), "every path through the exists-branch reports the duplicate",
+			c.Check(always(existsPath), rule, c.FuncName(d)+"/name already defined", at, "every path through the exists-branch reports the duplicate",
 				"a path through the branch for a name that is already in the symbol table leaves without reporting it: such a duplicate definition is accepted — both copies stay among the type definitions and are both generated (exit 0, files written)")
+		}
+		ast.Inspect(d.Body, func(m ast.Node) bool {
+			switch x := m.(type) {
+			case *ast.IfStmt:
+				// if v, ok := T[k]; ok { exists } else { store }
+				if x.Init == nil {
+					return true
+				}
+				ix, okObj := lookup(x.Init)
+				if ix == nil {
+					return true
+				}
+				if isOK(x.Cond, okObj) && x.Else != nil && storesUnder(x.Else, ix.Index) {
+					judge(x.Body.List, x.Pos())
+				} else if isNotOK(x.Cond, okObj) && storesUnder(x.Body, ix.Index) {
+					if eb, ok := x.Else.(*ast.BlockStmt); ok {
+						judge(eb.List, x.Pos())
+					}
+				}
+			case *ast.BlockStmt, *ast.CaseClause:
+				// v, ok := T[k]; if !ok { store; leave }; <exists path>     or     …; if ok { exists } else { store }
+				var list []ast.Stmt
+				if b, ok := x.(*ast.BlockStmt); ok {
+					list = b.List
+				} else {
+					list = x.(*ast.CaseClause).Body
+				}
+				xl := struct{ List []ast.Stmt }{list}
+				for i, st := range xl.List {
+					ix, okObj := lookup(st)
+					if ix == nil || i+1 >= len(xl.List) {
+						continue
+					}
+					is, isIf := xl.List[i+1].(*ast.IfStmt)
+					if !isIf || is.Init != nil {
+						continue
+					}
+					switch {
+					case isNotOK(is.Cond, okObj) && storesUnder(is.Body, ix.Index) && bodyLeaves(is.Body):
+						judge(xl.List[i+2:], is.Pos())
+					case isNotOK(is.Cond, okObj) && storesUnder(is.Body, ix.Index) && is.Else != nil:
+						if eb, ok := is.Else.(*ast.BlockStmt); ok {
+							judge(eb.List, is.Pos())
+						}
+					case isOK(is.Cond, okObj) && (storesUnder(is.Else, ix.Index) || (i+2 < len(xl.List) && bodyLeaves(is.Body) && storesUnder(&ast.BlockStmt{List: xl.List[i+2:]}, ix.Index))):
+						judge(is.Body.List, is.Pos())
+					}
+				}
+			}
 			return true
 		})
 	}
